@@ -1,14 +1,21 @@
 // Harness for C06 (Immutable option: values taken from the context stay valid).
 //
-// One case = (Immutable flag, first request R0, later requests R1..Rn). The real fiber app is driven
+// One case = (configuration, first request R0, later requests R1..Rn). The real fiber app is driven
 // through ONE app.Handler() with ONE reused fasthttp.RequestCtx on one goroutine (GOMAXPROCS(1)), every
 // request parsed from raw wire bytes with Request.Read, so that the pooled fiber context and all the
 // fasthttp buffers (header key/value storage, URI, args, body) are recycled exactly as a worker does.
-// While serving R0 the handler calls EVERY accessor of fiber.Ctx that yields strings / byte slices /
-// collections of them (found by reflection on the interface, so new accessors are covered
-// automatically), the generic helpers, every Bind() source and the Redirect() readers; it keeps the
-// returned values themselves and records their content (a) at capture, (b) at the end of the handler,
-// (c) after R1..Rn have been served. The driver compares with the accessor semantics and the property.
+// While serving R0 the handler calls EVERY accessor of fiber.Ctx, fiber.Req and fiber.Res that yields
+// strings / byte slices / collections or objects holding them (found by reflection on the interfaces,
+// so new accessors are covered automatically), the generic helpers, every Bind() source into struct,
+// map and map-of-slices targets and the Redirect() readers; it keeps the returned values themselves and
+// records their content (a) at capture, (b) at the end of the handler - after every accessor has been
+// called a second time - and (c) after R1..Rn have been served. The driver compares with the accessor
+// semantics and the property.
+//
+// Configurations: Immutable x CaseSensitive x EnableSplittingOnParsers x ProxyHeader x
+// EnableIPValidation x TrustProxy (untrusted peer). Bodies: none, text, urlencoded form, JSON,
+// multipart form with files, compressed text (gzip / deflate / br / zstd, several layers, unsupported
+// and wrongly spelled encodings).
 package main
 
 import (
@@ -33,6 +40,83 @@ import (
 )
 
 // ---------------------------------------------------------------------------------------------
+// configuration of the app under test
+
+type config struct {
+	imm   bool // Immutable
+	cs    bool // CaseSensitive
+	split bool // EnableSplittingOnParsers
+	ph    bool // ProxyHeader: X-Forwarded-For
+	ipv   bool // EnableIPValidation
+	tp    bool // TrustProxy with no trusted proxy: the peer 10.0.0.7 is NOT trusted
+}
+
+var cfgFlags = []string{"cs", "ipv", "ph", "split", "tp"} // canonical (sorted) order
+
+func (c config) flag(n string) bool {
+	switch n {
+	case "cs":
+		return c.cs
+	case "ipv":
+		return c.ipv
+	case "ph":
+		return c.ph
+	case "split":
+		return c.split
+	case "tp":
+		return c.tp
+	}
+	return false
+}
+
+func (c config) encode() string {
+	s := gen.B(c.imm)
+	for _, n := range cfgFlags {
+		if c.flag(n) {
+			s += "," + n
+		}
+	}
+	return s
+}
+
+func decodeConfig(s string) (c config, ok bool) {
+	f := strings.Split(s, ",")
+	switch f[0] {
+	case "0":
+	case "1":
+		c.imm = true
+	default:
+		return c, false
+	}
+	for _, x := range f[1:] {
+		switch x {
+		case "cs":
+			c.cs = true
+		case "ipv":
+			c.ipv = true
+		case "ph":
+			c.ph = true
+		case "split":
+			c.split = true
+		case "tp":
+			c.tp = true
+		default:
+			return c, false
+		}
+	}
+	return c, c.encode() == s // canonical spelling only
+}
+
+func (c config) fiber() fiber.Config {
+	fc := fiber.Config{Immutable: c.imm, CaseSensitive: c.cs, EnableSplittingOnParsers: c.split,
+		EnableIPValidation: c.ipv, TrustProxy: c.tp}
+	if c.ph {
+		fc.ProxyHeader = fiber.HeaderXForwardedFor
+	}
+	return fc
+}
+
+// ---------------------------------------------------------------------------------------------
 // structured requests
 
 type kv struct{ k, v string }
@@ -45,10 +129,17 @@ type request struct {
 	headers []kv
 	cookies []kv
 	host    string
-	bkind   byte // 'n' none (GET), 'r' raw text/plain, 'f' urlencoded form, 'j' json {"name":..,"note":..}
-	braw    string
-	bform   []kv
+	// 'n' none (GET), 'r' raw text/plain, 'f' urlencoded form, 'j' json {"name":..,"note":..},
+	// 'm' multipart form (bform = fields, bfiles = field -> file name), 'z' compressed text
+	bkind  byte
+	braw   string
+	bform  []kv
+	bfiles []kv
+	encs   []string // 'z': Content-Encoding elements in header order
+	layers []string // 'z': layers[0] = body on the wire, layers[i+1] = layers[i] decoded with encs[i]
 }
+
+const boundary = "XbOuNdArYx"
 
 func encPairs(ps []kv) string {
 	if len(ps) == 0 {
@@ -70,6 +161,10 @@ func (q request) encode() string {
 		body = "f:" + encPairs(q.bform)
 	case 'j':
 		body = "j:" + encPairs(q.bform)
+	case 'm':
+		body = "m:" + encPairs(q.bform) + "~" + encPairs(q.bfiles)
+	case 'z':
+		body = "z:" + gen.HexList(q.encs) + ":" + gen.HexList(q.layers)
 	}
 	return strings.Join([]string{gen.I(q.proto), gen.Hex(q.name), gen.Hex(q.rest), encPairs(q.query),
 		encPairs(q.headers), encPairs(q.cookies), gen.Hex(q.host), body}, "|")
@@ -81,6 +176,25 @@ func unhex(s string) (string, bool) {
 	}
 	b, err := hex.DecodeString(s)
 	return string(b), err == nil
+}
+
+func unhexList(s string) ([]string, bool) {
+	if s == "-" {
+		return nil, true
+	}
+	var out []string
+	for _, p := range strings.Split(s, ",") {
+		if p == "_" {
+			out = append(out, "")
+			continue
+		}
+		b, err := hex.DecodeString(p)
+		if err != nil || len(b) == 0 {
+			return nil, false
+		}
+		out = append(out, string(b))
+	}
+	return out, true
 }
 
 func decPairs(s string) ([]kv, bool) {
@@ -142,6 +256,30 @@ func decodeRequest(s string) (q request, ok bool) {
 		if !ok {
 			return q, false
 		}
+	case strings.HasPrefix(f[7], "m:"):
+		q.bkind = 'm'
+		parts := strings.Split(f[7][2:], "~")
+		if len(parts) != 2 {
+			return q, false
+		}
+		var ok1, ok2 bool
+		q.bform, ok1 = decPairs(parts[0])
+		q.bfiles, ok2 = decPairs(parts[1])
+		if !ok1 || !ok2 {
+			return q, false
+		}
+	case strings.HasPrefix(f[7], "z:"):
+		q.bkind = 'z'
+		parts := strings.Split(f[7][2:], ":")
+		if len(parts) != 2 {
+			return q, false
+		}
+		var ok1, ok2 bool
+		q.encs, ok1 = unhexList(parts[0])
+		q.layers, ok2 = unhexList(parts[1])
+		if !ok1 || !ok2 {
+			return q, false
+		}
 	default:
 		return q, false
 	}
@@ -161,19 +299,77 @@ func isWord(s string, extra string) bool {
 	return true
 }
 
+// bracketsOK: a query / form key may use the bracket notation of the binders (a[b], a[]); brackets
+// must be balanced and not nested.
+func bracketsOK(k string) bool {
+	open := false
+	for i := 0; i < len(k); i++ {
+		switch k[i] {
+		case '[':
+			if open || i == 0 {
+				return false
+			}
+			open = true
+		case ']':
+			if !open {
+				return false
+			}
+			open = false
+		}
+	}
+	return !open
+}
+
+func decodeLayer(enc string, src []byte) ([]byte, bool) {
+	var out []byte
+	var err error
+	switch enc {
+	case "gzip":
+		out, err = fasthttp.AppendGunzipBytes(nil, src)
+	case "deflate":
+		out, err = fasthttp.AppendInflateBytes(nil, src)
+	case "br", "brotli":
+		out, err = fasthttp.AppendUnbrotliBytes(nil, src)
+	case "zstd":
+		out, err = fasthttp.AppendUnzstdBytes(nil, src)
+	default:
+		return nil, false
+	}
+	return out, err == nil
+}
+
+func supportedEnc(e string) bool {
+	switch e {
+	case "gzip", "deflate", "br", "brotli", "zstd":
+		return true
+	}
+	return false
+}
+
 func (q request) valid() bool {
 	if q.name == "" || !isWord(q.name, "._~") || !isWord(q.rest, "._~/") || q.host == "" || !isWord(q.host, ".-:") {
 		return false
 	}
 	for _, p := range q.query {
-		if p.k == "" || !isWord(p.k, "_") || !isWord(p.v, "._~-") {
+		if p.k == "" || !isWord(p.k, "_[]") || !bracketsOK(p.k) || !isWord(p.v, "._~-,") {
 			return false
 		}
 	}
 	for _, p := range q.bform {
-		if p.k == "" || !isWord(p.k, "_") || !isWord(p.v, "._~-") {
+		if p.k == "" || !isWord(p.k, "_[]") || !bracketsOK(p.k) || !isWord(p.v, "._~-,") {
 			return false
 		}
+		if q.bkind == 'j' && (!isWord(p.k, "_") || !isWord(p.v, "._~-")) {
+			return false
+		}
+	}
+	for _, p := range q.bfiles {
+		if p.k == "" || !isWord(p.k, "_") || p.v == "" || !isWord(p.v, "._-") {
+			return false
+		}
+	}
+	if q.bkind != 'm' && len(q.bfiles) > 0 {
+		return false
 	}
 	for _, p := range q.cookies {
 		if p.k == fiber.FlashCookieName {
@@ -194,9 +390,35 @@ func (q request) valid() bool {
 			return false
 		}
 		switch strings.ToLower(p.k) {
-		case "host", "cookie", "content-length", "content-type", "connection", "transfer-encoding", "content-encoding", "expect":
+		case "host", "cookie", "content-length", "content-type", "connection", "transfer-encoding", "content-encoding", "expect", "trailer":
 			return false
 		}
+	}
+	if q.bkind == 'z' {
+		// the layers must be what the encodings say: layers[i+1] = decode(encs[i], layers[i]) for the
+		// leading run of supported encodings, and nothing behind it
+		if len(q.encs) == 0 || len(q.encs) > 3 || len(q.layers) == 0 {
+			return false
+		}
+		n := 0
+		for n < len(q.encs) && supportedEnc(q.encs[n]) {
+			n++
+		}
+		if len(q.layers) != n+1 {
+			return false
+		}
+		for _, e := range q.encs {
+			if e == "" || !isWord(e, "-") {
+				return false
+			}
+		}
+		for i := 0; i < n; i++ {
+			d, ok := decodeLayer(q.encs[i], []byte(q.layers[i]))
+			if !ok || string(d) != q.layers[i+1] {
+				return false
+			}
+		}
+		return true
 	}
 	return isWord(q.braw, "._~- ")
 }
@@ -230,6 +452,19 @@ func (q request) body() (ctype, body string) {
 			parts[i] = `"` + p.k + `":"` + p.v + `"`
 		}
 		return "application/json", "{" + strings.Join(parts, ",") + "}"
+	case 'm':
+		var b strings.Builder
+		for _, p := range q.bform {
+			b.WriteString("--" + boundary + "\r\nContent-Disposition: form-data; name=\"" + p.k + "\"\r\n\r\n" + p.v + "\r\n")
+		}
+		for _, p := range q.bfiles {
+			b.WriteString("--" + boundary + "\r\nContent-Disposition: form-data; name=\"" + p.k + "\"; filename=\"" + p.v +
+				"\"\r\nContent-Type: text/plain\r\n\r\ncontent of " + p.v + "\r\n")
+		}
+		b.WriteString("--" + boundary + "--\r\n")
+		return "multipart/form-data; boundary=" + boundary, b.String()
+	case 'z':
+		return "text/plain", q.layers[0]
 	}
 	return "", ""
 }
@@ -252,6 +487,9 @@ func (q request) wire() []byte {
 	if len(q.cookies) > 0 {
 		fmt.Fprintf(&b, "Cookie: %s\r\n", joinPairs(q.cookies, "=", "; "))
 	}
+	if q.bkind == 'z' {
+		fmt.Fprintf(&b, "Content-Encoding: %s\r\n", strings.Join(q.encs, ", "))
+	}
 	if q.bkind != 'n' {
 		ct, body := q.body()
 		fmt.Fprintf(&b, "Content-Type: %s\r\nContent-Length: %d\r\n\r\n%s", ct, len(body), body)
@@ -265,22 +503,32 @@ func (q request) wire() []byte {
 // generator
 
 var (
-	names      = []string{"alice", "bobby", "carol", "x", "Zed.9", "a~b", "longer-name"[:6], "ALICE", "al1ce"}
-	rests      = []string{"", "f", "file.txt", "a/b/c", "img/logo.png", "zzzzzzzz", "A/B"}
-	qkeys      = []string{"name", "tag", "q", "id", "page"}
+	longWord   = strings.Repeat("lorem-ipsum.", 17) + "end" // 207 bytes: longer than any small-string fast path
+	hugeWord   = strings.Repeat("0123456789abcdef.", 80)    // 1360 bytes
+	bigBody    = strings.Repeat("big-body 0123456789 ", 260) // 5200 bytes: beyond a 4 KiB threshold
+	hugeBody   = strings.Repeat("huge body-", 7000)          // 70000 bytes: beyond 64 KiB
+	longName   = strings.Repeat("Nm0~", 40)                 // 160 bytes
+	names      = []string{"alice", "bobby", "carol", "x", "Zed.9", "a~b", "longer", "ALICE", "al1ce", longName}
+	rests      = []string{"", "f", "file.txt", "a/b/c", "img/logo.png", "zzzzzzzz", "A/B", strings.Repeat("seg/", 30) + "leaf"}
+	qkeys      = []string{"name", "tag", "q", "id", "page", "f[a]", "l[]"}
 	hkeys      = []string{"X-Custom-A", "X-Token", "Accept", "Accept-Language", "Accept-Charset", "Accept-Encoding", "X-Forwarded-For", "X-Forwarded-Host", "X-Forwarded-Proto", "Referer", "Range", "If-None-Match", "User-Agent", "X-Requested-With"}
 	ckeys      = []string{"sid", "theme", "lang"}
-	fkeys      = []string{"user", "note", "name", "tag"}
+	fkeys      = []string{"user", "note", "name", "tag", "f[a]"}
+	filekeys   = []string{"upload", "doc"}
+	filenames  = []string{"a.txt", "report-2024.csv", "x", strings.Repeat("long-file-name_", 8) + ".bin"}
 	hostsV     = []string{"example.com", "a.b.example.com:8080", "localhost:3000", "api.test", "x.y.z.w.example.org"}
-	words      = []string{"alpha", "bravo", "delta", "omega", "v1", "0", "42", "true", "a.b", "x~y", "AbC", "zz-top", "m"}
+	words      = []string{"alpha", "bravo", "delta", "omega", "v1", "0", "42", "true", "a.b", "x~y", "AbC", "zz-top", "m", longWord}
+	listWords  = []string{"a,b", "x,y,z", "one,two", "k,"}
+	encNames   = []string{"gzip", "deflate", "br", "zstd", "brotli"}
+	badEncs    = []string{"identity", "GZIP", "compress", "x-custom"}
 	hvalsByKey = map[string][]string{
 		"Accept":            {"text/html", "application/json", "text/html, application/json;q=0.8", "*/*"},
 		"Accept-Language":   {"en", "de, en;q=0.5", "fr"},
 		"Accept-Charset":    {"utf-8", "iso-8859-1, utf-8;q=0.7"},
 		"Accept-Encoding":   {"gzip", "br, gzip", "identity"},
-		"X-Forwarded-For":   {"1.2.3.4", "1.2.3.4, 5.6.7.8", "9.9.9.9, 10.0.0.1, 8.8.8.8"},
-		"X-Forwarded-Host":  {"proxy.example.com", "front.test, back.test"},
-		"X-Forwarded-Proto": {"https", "http"},
+		"X-Forwarded-For":   {"1.2.3.4", "1.2.3.4, 5.6.7.8", "9.9.9.9, 10.0.0.1, 8.8.8.8", "unknown, 1.2.3.4", "1.2.3.400"},
+		"X-Forwarded-Host":  {"proxy.example.com", "front.test, back.test", "a.b.c.proxy.example.org:8443"},
+		"X-Forwarded-Proto": {"https", "http", "https, http"},
 		"Referer":           {"http://ref.example.com/page", "https://other.test/a/b"},
 		"Range":             {"bytes=0-99", "bytes=5-10,20-30", "items=1-2"},
 		"If-None-Match":     {"abc", "W/xyz"},
@@ -289,17 +537,24 @@ var (
 	}
 )
 
-func genPairs(r *gen.Rand, keys []string, max int) []kv {
+func genPairs(r *gen.Rand, keys []string, max int, lists bool) []kv {
 	n := r.Intn(max + 1)
 	out := make([]kv, 0, n)
 	for i := 0; i < n; i++ {
-		out = append(out, kv{gen.Pick(r, keys), gen.Pick(r, words)})
+		v := gen.Pick(r, words)
+		if lists && r.Chance(1, 4) {
+			v = gen.Pick(r, listWords)
+		}
+		if r.Chance(1, 40) {
+			v = hugeWord
+		}
+		out = append(out, kv{gen.Pick(r, keys), v})
 	}
 	return out
 }
 
 func genHeaders(r *gen.Rand) []kv {
-	n := r.Intn(5)
+	n := r.Intn(6)
 	seen := map[string]bool{}
 	var out []kv
 	for i := 0; i < n; i++ {
@@ -310,6 +565,8 @@ func genHeaders(r *gen.Rand) []kv {
 		seen[k] = true
 		if vs, ok := hvalsByKey[k]; ok {
 			out = append(out, kv{k, gen.Pick(r, vs)})
+		} else if r.Chance(1, 30) {
+			out = append(out, kv{k, hugeWord})
 		} else {
 			out = append(out, kv{k, gen.Pick(r, words)})
 		}
@@ -317,28 +574,84 @@ func genHeaders(r *gen.Rand) []kv {
 	return out
 }
 
+func encodeLayer(enc string, src []byte) []byte {
+	switch enc {
+	case "gzip":
+		return fasthttp.AppendGzipBytes(nil, src)
+	case "deflate":
+		return fasthttp.AppendDeflateBytes(nil, src)
+	case "br", "brotli":
+		return fasthttp.AppendBrotliBytes(nil, src)
+	case "zstd":
+		return fasthttp.AppendZstdBytes(nil, src)
+	}
+	return src
+}
+
+// compressed builds the layers for a Content-Encoding list: fiber decodes in HEADER order (ctx.go
+// tryDecodeBodyInOrder), so the wire body is encs[0](encs[1](... plain)). An unsupported element ends
+// the decodable prefix; what is behind it is irrelevant.
+func compressed(plain string, encs []string) (layers []string) {
+	n := 0
+	for n < len(encs) && supportedEnc(encs[n]) {
+		n++
+	}
+	layers = make([]string, n+1)
+	cur := []byte(plain)
+	layers[n] = plain
+	for i := n - 1; i >= 0; i-- {
+		cur = encodeLayer(encs[i], cur)
+		layers[i] = string(cur)
+	}
+	return layers
+}
+
 func genRequest(r *gen.Rand) request {
 	q := request{name: gen.Pick(r, names), rest: gen.Pick(r, rests), host: gen.Pick(r, hostsV)}
 	if r.Chance(1, 4) {
 		q.proto = 1
 	}
-	q.query = genPairs(r, qkeys, 3)
+	q.query = genPairs(r, qkeys, 3, true)
 	q.headers = genHeaders(r)
-	q.cookies = dedupKeys(genPairs(r, ckeys, 2))
+	q.cookies = dedupKeys(genPairs(r, ckeys, 2, false))
 	if r.Chance(1, 4) {
 		var msgs [][3]string
 		for i := r.Intn(2) + 1; i > 0; i-- {
-			msgs = append(msgs, [3]string{gen.Pick(r, []string{"status", "name", "note"}), gen.Pick(r, words), gen.Pick(r, []string{"0", "1"})})
+			msgs = append(msgs, [3]string{gen.Pick(r, []string{"status", "name", "note"}), gen.Pick(r, words[:13]), gen.Pick(r, []string{"0", "1"})})
 		}
 		q.cookies = append(q.cookies, kv{fiber.FlashCookieName, flashCookie(msgs)})
 	}
-	switch r.Intn(5) {
+	switch r.Intn(8) {
 	case 0:
-		q.bkind, q.braw = 'r', gen.Pick(r, []string{"", "hello world", "payload-1", "zzzzzzzzzzzzzzzzzzzz"})
+		q.bkind, q.braw = 'r', gen.Pick(r, []string{"", "hello world", "payload-1", "zzzzzzzzzzzzzzzzzzzz", longWord + " " + longWord})
+		if r.Chance(1, 8) {
+			q.braw = bigBody
+		} else if r.Chance(1, 25) {
+			q.braw = hugeBody
+		}
 	case 1, 2:
-		q.bkind, q.bform = 'f', genPairs(r, fkeys, 3)
+		q.bkind, q.bform = 'f', genPairs(r, fkeys, 3, true)
 	case 3:
-		q.bkind, q.bform = 'j', dedupKeys(genPairs(r, []string{"name", "note"}, 2))
+		q.bkind, q.bform = 'j', dedupKeys(genPairs(r, []string{"name", "note"}, 2, false))
+	case 4:
+		q.bkind, q.bform = 'm', genPairs(r, fkeys, 3, true)
+		for i := r.Intn(3); i > 0; i-- {
+			q.bfiles = append(q.bfiles, kv{gen.Pick(r, filekeys), gen.Pick(r, filenames)})
+		}
+	case 5:
+		q.bkind = 'z'
+		plain := gen.Pick(r, []string{"hello world", "payload-1", longWord, "z"})
+		if r.Chance(1, 10) {
+			plain = bigBody
+		}
+		for i := r.Intn(3) + 1; i > 0; i-- {
+			if r.Chance(1, 4) {
+				q.encs = append(q.encs, gen.Pick(r, badEncs))
+			} else {
+				q.encs = append(q.encs, gen.Pick(r, encNames))
+			}
+		}
+		q.layers = compressed(plain, q.encs)
 	default:
 		q.bkind = 'n'
 	}
@@ -395,7 +708,7 @@ func rot(s string) string {
 	return string(b)
 }
 
-func rotPairs(ps []kv, keys bool) []kv {
+func rotPairs(ps []kv) []kv {
 	out := make([]kv, len(ps))
 	for i, p := range ps {
 		if p.k == fiber.FlashCookieName {
@@ -411,10 +724,14 @@ func rotPairs(ps []kv, keys bool) []kv {
 func sameShape(q request) request {
 	o := q
 	o.name, o.rest, o.host, o.braw = rot(q.name), rot(q.rest), rot(q.host), rot(q.braw)
-	o.query, o.cookies, o.bform = rotPairs(q.query, false), rotPairs(q.cookies, false), rotPairs(q.bform, false)
+	o.query, o.cookies, o.bform, o.bfiles = rotPairs(q.query), rotPairs(q.cookies), rotPairs(q.bform), rotPairs(q.bfiles)
 	o.headers = make([]kv, len(q.headers))
 	for i, h := range q.headers {
 		o.headers[i] = kv{h.k, rot(h.v)}
+	}
+	if q.bkind == 'z' {
+		o.encs = append([]string(nil), q.encs...)
+		o.layers = compressed(rot(q.layers[len(q.layers)-1]), q.encs)
 	}
 	o.proto = 1 - q.proto
 	return o
@@ -432,16 +749,26 @@ type captured struct {
 }
 
 var (
-	tString  = reflect.TypeOf("")
-	tBytes   = reflect.TypeOf([]byte(nil))
-	tStrings = reflect.TypeOf([]string(nil))
-	tErr     = reflect.TypeOf((*error)(nil)).Elem()
-	tTime    = reflect.TypeOf(time.Time{})
+	tErr  = reflect.TypeOf((*error)(nil)).Elem()
+	tTime = reflect.TypeOf(time.Time{})
 )
+
+// followPtr: pointers are followed into the objects a handler receives from fiber itself (Route) and
+// from mime/multipart (Form, FileHeader); never into fasthttp / net / tls objects.
+func followPtr(t reflect.Type) bool {
+	if t.Kind() != reflect.Ptr || t.Elem().Kind() != reflect.Struct {
+		return false
+	}
+	switch t.Elem().PkgPath() {
+	case "", "github.com/gofiber/fiber/v3", "mime/multipart":
+		return true
+	}
+	return false
+}
 
 // hasText reports whether values of type t can hold text obtained from the request.
 func hasText(t reflect.Type, depth int) bool {
-	if depth > 4 || t == tTime {
+	if depth > 5 || t == tTime {
 		return false
 	}
 	switch t.Kind() {
@@ -457,13 +784,15 @@ func hasText(t reflect.Type, depth int) bool {
 				return true
 			}
 		}
+	case reflect.Ptr:
+		return followPtr(t) && hasText(t.Elem(), depth+1)
 	}
 	return false
 }
 
 // flatten renders the text content of v as a list of byte strings (maps in key order).
 func flatten(v reflect.Value, out *[]string, depth int) {
-	if depth > 6 || !v.IsValid() {
+	if depth > 8 || !v.IsValid() {
 		return
 	}
 	switch v.Kind() {
@@ -514,8 +843,12 @@ func flatten(v reflect.Value, out *[]string, depth int) {
 			}
 			return
 		}
-		if !v.IsNil() && v.Kind() == reflect.Ptr && v.Elem().Kind() == reflect.Struct && v.Type().Elem().PkgPath() == "" {
-			flatten(v.Elem(), out, depth+1)
+		if v.Kind() == reflect.Ptr && followPtr(v.Type()) {
+			if v.IsNil() {
+				*out = append(*out, "nil")
+			} else {
+				flatten(v.Elem(), out, depth+1)
+			}
 		}
 	case reflect.Int, reflect.Int8, reflect.Int16, reflect.Int32, reflect.Int64:
 		*out = append(*out, fmt.Sprint(v.Int()))
@@ -545,6 +878,7 @@ func keysFor(q request) []string {
 		}
 	}
 	add("name")
+	add("NAME")
 	add("*")
 	for _, p := range q.query {
 		add(p.k)
@@ -558,40 +892,51 @@ func keysFor(q request) []string {
 	for _, p := range q.bform {
 		add(p.k)
 	}
+	for _, p := range q.bfiles {
+		add(p.k)
+	}
 	add("Host")
 	add("Content-Type")
+	add("Content-Length")
+	add("Content-Encoding")
+	add("Cookie")
+	add("X-Resp")
+	add("X-Echo")
 	add("zz-missing")
 	return ks
 }
 
 type bindTarget struct {
-	Name  string   `query:"name" form:"name" header:"X-Custom-A" cookie:"sid" uri:"name" json:"name"`
-	Tag   []string `query:"tag" form:"tag" header:"X-Token" cookie:"theme"`
+	Name  string   `query:"name" form:"name" header:"X-Custom-A" respHeader:"X-Resp" cookie:"sid" uri:"name" json:"name"`
+	Tag   []string `query:"tag" form:"tag" header:"X-Token" respHeader:"X-Echo" cookie:"theme"`
 	Note  string   `query:"q" form:"note" header:"Referer" cookie:"lang" json:"note"`
 	Other string   `query:"id" form:"user" header:"User-Agent"`
+	List  []string `query:"l" form:"l" header:"Accept"`
+	Lang  []string `header:"Accept-Language" cookie:"lang"`
 }
 
-// captureAll calls every text-yielding accessor on c. Panics of an accessor are recorded as a value.
-func captureAll(c fiber.Ctx, q request) []*captured {
-	var caps []*captured
-	call := func(id string, f func() []reflect.Value) {
-		cp := &captured{id: id}
-		func() {
-			defer func() {
-				if r := recover(); r != nil {
-					cp.vals = []reflect.Value{reflect.ValueOf("panic")}
-				}
-			}()
-			cp.vals = f()
+type capturer struct {
+	caps []*captured
+}
+
+func (cc *capturer) call(id string, f func() []reflect.Value) {
+	cp := &captured{id: id}
+	func() {
+		defer func() {
+			if r := recover(); r != nil {
+				cp.vals = []reflect.Value{reflect.ValueOf("panic")}
+			}
 		}()
-		cp.during = cp.read()
-		caps = append(caps, cp)
-	}
-	cv := reflect.ValueOf(c)
-	ct := reflect.TypeOf((*fiber.Ctx)(nil)).Elem()
-	keys := keysFor(q)
-	for i := 0; i < ct.NumMethod(); i++ {
-		m := ct.Method(i)
+		cp.vals = f()
+	}()
+	cp.during = cp.read()
+	cc.caps = append(cc.caps, cp)
+}
+
+// probeIface calls every exported method of interface type it (implemented by v) that yields text.
+func (cc *capturer) probeIface(prefix string, v reflect.Value, it reflect.Type, keys []string) {
+	for i := 0; i < it.NumMethod(); i++ {
+		m := it.Method(i)
 		if m.PkgPath != "" {
 			continue // unexported interface methods cannot be called from outside the package
 		}
@@ -605,12 +950,13 @@ func captureAll(c fiber.Ctx, q request) []*captured {
 		if !text {
 			continue
 		}
-		fn := cv.MethodByName(m.Name)
+		fn := v.MethodByName(m.Name)
 		nin := mt.NumIn()
 		fixed := nin
 		if mt.IsVariadic() {
 			fixed--
 		}
+		name := prefix + m.Name
 		switch {
 		case fixed == 0 && mt.IsVariadic() && mt.In(0).Elem().Kind() == reflect.String && strings.HasPrefix(m.Name, "Accepts"):
 			offers := map[string][]string{"Accepts": {"html", "json", "text/plain"}, "AcceptsCharsets": {"utf-8", "iso-8859-1"},
@@ -619,25 +965,35 @@ func captureAll(c fiber.Ctx, q request) []*captured {
 			for j, o := range offers {
 				args[j] = reflect.ValueOf(strings.Clone(o))
 			}
-			call(m.Name, func() []reflect.Value { return fn.Call(args) })
+			cc.call(name, func() []reflect.Value { return fn.Call(args) })
 		case fixed == 0:
-			call(m.Name, func() []reflect.Value { return fn.Call(nil) })
+			cc.call(name, func() []reflect.Value { return fn.Call(nil) })
 		case fixed == 1 && mt.In(0).Kind() == reflect.String:
 			for _, k := range keys {
 				k := k
-				call(m.Name+"("+k+")", func() []reflect.Value { return fn.Call([]reflect.Value{reflect.ValueOf(k)}) })
+				cc.call(name+"("+k+")", func() []reflect.Value { return fn.Call([]reflect.Value{reflect.ValueOf(k)}) })
 			}
 		case fixed == 1 && mt.In(0).Kind() == reflect.Int:
-			call(m.Name+"(1000)", func() []reflect.Value { return fn.Call([]reflect.Value{reflect.ValueOf(1000)}) })
+			cc.call(name+"(1000)", func() []reflect.Value { return fn.Call([]reflect.Value{reflect.ValueOf(1000)}) })
 		default:
 			// accessor with a signature the harness cannot drive generically: zero arguments
 			args := make([]reflect.Value, fixed)
 			for j := range args {
 				args[j] = reflect.Zero(mt.In(j))
 			}
-			call(m.Name+"(zero)", func() []reflect.Value { return fn.Call(args) })
+			cc.call(name+"(zero)", func() []reflect.Value { return fn.Call(args) })
 		}
 	}
+}
+
+// captureAll calls every text-yielding accessor on c. Panics of an accessor are recorded as a value.
+func captureAll(c fiber.Ctx, q request) []*captured {
+	cc := &capturer{}
+	call := cc.call
+	keys := keysFor(q)
+	cc.probeIface("", reflect.ValueOf(c), reflect.TypeOf((*fiber.Ctx)(nil)).Elem(), keys)
+	cc.probeIface("Req.", reflect.ValueOf(c.Req()), reflect.TypeOf((*fiber.Req)(nil)).Elem(), keys)
+	cc.probeIface("Res.", reflect.ValueOf(c.Res()), reflect.TypeOf((*fiber.Res)(nil)).Elem(), keys)
 	// generic helpers
 	for _, k := range keys {
 		k := k
@@ -652,14 +1008,6 @@ func captureAll(c fiber.Ctx, q request) []*captured {
 			return []reflect.Value{reflect.ValueOf(fiber.GetReqHeader[[]byte](c, k))}
 		})
 	}
-	// Req() facade (same implementations, different entry points)
-	rq := c.Req()
-	call("Req.Params(name)", func() []reflect.Value { return []reflect.Value{reflect.ValueOf(rq.Params("name"))} })
-	call("Req.Protocol", func() []reflect.Value { return []reflect.Value{reflect.ValueOf(rq.Protocol())} })
-	call("Req.Host", func() []reflect.Value { return []reflect.Value{reflect.ValueOf(rq.Host())} })
-	call("Req.Body", func() []reflect.Value { return []reflect.Value{reflect.ValueOf(rq.Body())} })
-	// Route() metadata
-	call("Route.Path", func() []reflect.Value { return []reflect.Value{reflect.ValueOf(c.Route().Path)} })
 	// binders: struct, map[string]string, map[string][]string targets
 	type binder struct {
 		name string
@@ -688,6 +1036,11 @@ func captureAll(c fiber.Ctx, q request) []*captured {
 			return []reflect.Value{reflect.ValueOf(t), reflect.ValueOf(&err).Elem()}
 		})
 	}
+	call("Bind.Custom:struct", func() []reflect.Value {
+		t := new(bindTarget)
+		err := b.Custom("echo", t)
+		return []reflect.Value{reflect.ValueOf(t).Elem(), reflect.ValueOf(&err).Elem()}
+	})
 	// flash readers (empty unless the request carried a flash cookie; kept for table coverage)
 	rd := c.Redirect()
 	call("Redirect.Messages", func() []reflect.Value { return []reflect.Value{reflect.ValueOf(rd.Messages())} })
@@ -697,7 +1050,47 @@ func captureAll(c fiber.Ctx, q request) []*captured {
 		call("Redirect.Message("+k+")", func() []reflect.Value { return []reflect.Value{reflect.ValueOf(rd.Message(k))} })
 		call("Redirect.OldInput("+k+")", func() []reflect.Value { return []reflect.Value{reflect.ValueOf(rd.OldInput(k))} })
 	}
-	return caps
+	return cc.caps
+}
+
+// echoBinder is a custom binder (application code): it fills the target from accessors of the context.
+type echoBinder struct{}
+
+func (echoBinder) Name() string        { return "echo" }
+func (echoBinder) MIMETypes() []string { return []string{"application/x-echo"} }
+func (echoBinder) Parse(c fiber.Ctx, out any) error {
+	if t, ok := out.(*bindTarget); ok {
+		t.Name = c.Params("name")
+		t.Note = c.Query("q")
+		t.Other = c.Get("User-Agent")
+	}
+	return nil
+}
+
+// touch: what the handler of a LATER request does, so that every recycled buffer (args, cookies,
+// multipart form, binder pools, flash slice, response header) is rewritten with the new contents.
+func touch(c fiber.Ctx) {
+	defer func() { _ = recover() }()
+	_ = c.Body()
+	_ = c.BodyRaw()
+	_ = c.Queries()
+	_ = c.FormValue("user")
+	_ = c.Cookies("sid")
+	_ = c.GetReqHeaders()
+	_ = c.GetRespHeaders()
+	_ = c.Host()
+	_ = c.IPs()
+	_ = c.OriginalURL()
+	_ = c.String()
+	_, _ = c.MultipartForm()
+	m := map[string][]string{}
+	_ = c.Bind().Query(&m)
+	_ = c.Bind().Header(&m)
+	_ = c.Bind().Cookie(&m)
+	_ = c.Bind().Form(&m)
+	_ = c.Bind().URI(&m)
+	_ = c.Bind().RespHeader(&m)
+	_ = c.Redirect().Messages()
 }
 
 // ---------------------------------------------------------------------------------------------
@@ -726,31 +1119,36 @@ func (w *worker) serve(wire []byte) error {
 	w.fctx.Request.Reset()
 	w.fctx.Response.Reset()
 	w.fctx.ResetUserValues()
-	if err := w.fctx.Request.Read(bufio.NewReader(bytes.NewReader(wire))); err != nil {
+	// the read buffer bounds the size of the header block, as Config.ReadBufferSize does in a server
+	if err := w.fctx.Request.Read(bufio.NewReaderSize(bytes.NewReader(wire), 64<<10)); err != nil {
 		return err
 	}
 	w.h(w.fctx)
 	return nil
 }
 
-func observe(imm bool, q0 request, later []request) (obs string, probed []string, ok bool) {
-	app := fiber.New(fiber.Config{Immutable: imm})
+func observe(cfg config, q0 request, later []request) (obs string, probed []string, ok bool) {
+	app := fiber.New(cfg.fiber())
+	app.RegisterCustomBinder(echoBinder{})
 	var caps []*captured
 	first := true
 	handler := func(c fiber.Ctx) error {
+		// response headers carrying request text: the response header storage is recycled too
 		c.Set("X-Resp", "r-"+c.Params("name"))
+		if v := c.Get("X-Custom-A"); v != "" {
+			c.Set("X-Echo", v)
+		}
 		if first {
 			first = false
 			caps = captureAll(c, q0)
+			// every accessor once more: none of them may disturb what another one handed out
+			_ = captureAll(c, q0)
+			touch(c)
 			for _, cp := range caps {
 				cp.end = cp.read()
 			}
 		} else {
-			// later requests exercise the same accessors so that every recycled buffer is rewritten
-			_ = c.Body()
-			_ = c.Queries()
-			_ = c.FormValue("user")
-			_ = c.Cookies("sid")
+			touch(c)
 		}
 		return c.SendString("ok")
 	}
@@ -768,7 +1166,7 @@ func observe(imm bool, q0 request, later []request) (obs string, probed []string
 	parts := make([]string, len(caps))
 	for i, cp := range caps {
 		after := "na"
-		if imm {
+		if cfg.imm {
 			after = cp.read()
 		}
 		parts[i] = cp.id + "=" + cp.during + "/" + cp.end + "/" + after
@@ -790,15 +1188,15 @@ func encodeLater(later []request) string {
 
 var probedAll = map[string]bool{}
 
-func emit(w *gen.Writer, id string, imm bool, q0 request, later []request) {
-	obs, probed, ok := observe(imm, q0, later)
+func emit(w *gen.Writer, id string, cfg config, q0 request, later []request) {
+	obs, probed, ok := observe(cfg, q0, later)
 	if !ok {
 		w.Count("unserved")
 	}
 	for _, p := range probed {
 		probedAll[p] = true
 	}
-	w.Case(id, gen.B(imm), q0.encode(), encodeLater(later), obs)
+	w.Case(id, cfg.encode(), q0.encode(), encodeLater(later), obs)
 }
 
 func main() {
@@ -810,7 +1208,11 @@ func main() {
 	defer w.Close()
 	if o.Replay != "" {
 		for _, f := range gen.ReplayInputs(o.Replay) {
-			if len(f) < 4 || (f[1] != "0" && f[1] != "1") {
+			if len(f) < 4 {
+				continue
+			}
+			cfg, okc := decodeConfig(f[1])
+			if !okc {
 				continue
 			}
 			q0, ok := decodeRequest(f[2])
@@ -834,18 +1236,22 @@ func main() {
 				w.Case(f[0], f[1], f[2], f[3], "invalid")
 				continue
 			}
-			emit(w, f[0], f[1] == "1", q0, later)
+			emit(w, f[0], cfg, q0, later)
 		}
 		return
 	}
 	root := gen.New(o.Seed)
+	maxLater := 9
+	if o.Tier == "thorough" {
+		maxLater = 13
+	}
 	for i := 0; i < o.N; i++ {
 		r := root.Fork(uint64(i))
 		q0 := genRequest(r)
-		imm := !r.Chance(1, 4)
+		cfg := config{imm: !r.Chance(1, 4), cs: r.Chance(1, 4), split: r.Chance(1, 3), ph: r.Chance(1, 4), ipv: r.Chance(1, 6), tp: r.Chance(1, 6)}
 		var later []request
-		n := r.Intn(5)
-		if imm && n == 0 {
+		n := r.Intn(maxLater)
+		if cfg.imm && n == 0 {
 			n = 1
 		}
 		for j := 0; j < n; j++ {
@@ -859,14 +1265,19 @@ func main() {
 				later = append(later, genRequest(r))
 			}
 		}
-		if imm {
+		if cfg.imm {
 			w.Count("immutable")
 		} else {
 			w.Count("mutable")
 		}
+		for _, n := range cfgFlags {
+			if cfg.flag(n) {
+				w.Count("cfg-" + n)
+			}
+		}
 		w.Count(fmt.Sprintf("later=%d", len(later)))
 		w.Count(fmt.Sprintf("body=%c", q0.bkind))
-		emit(w, fmt.Sprintf("s%d.%d", o.Seed, i), imm, q0, later)
+		emit(w, fmt.Sprintf("s%d.%d", o.Seed, i), cfg, q0, later)
 	}
 	// which accessors received a dynamic confirmation in this run (compared with the regenerated table)
 	ids := make([]string, 0, len(probedAll))
